@@ -782,6 +782,22 @@ func (sc *Scope) call(x *SExpr) Val {
 	case "ifaceVal":
 		a := arg(0)
 		return intVal(a.Leaves[1])
+	case "asPtr":
+		// asPtr(x, "*T"): the pointer held by interface value x (meaningful when typeIs(x, "*T"))
+		a := arg(0)
+		if len(x.Args) != 2 || x.Args[1].Kind != SStr {
+			sfail("asPtr(x, \"*T\")")
+		}
+		toks, err := lexSpec(x.Args[1].Lit)
+		if err != nil {
+			sfail("%v", err)
+		}
+		sp := &sparser{toks: toks, src: x.Args[1].Lit}
+		te, err := sp.typeExpr()
+		if err != nil {
+			sfail("%v", err)
+		}
+		return scalar(sc.resolveType(te), a.Leaves[1])
 	case "preserved":
 		// preserved(T.f): every object allocated in the pre-state keeps field f
 		return boolVal(sc.preserved(x))
